@@ -231,7 +231,18 @@ func init() {
 		Isolated: true,
 		Bound:    func(string) int { return 1 },
 		Gen: func(c *mc.Ctx) interface{} {
-			budget := c.Pick(4, 5)
+			// quick: trees of <=4 nodes, 9 boundary values per length/count; thorough: trees of <=4
+			// nodes with all 32 boundary values, and trees of <=5 nodes unmutated or with a key pair
+			// swapped / duplicated or a trailing byte
+			budget, fullBounds := 4, false
+			if !c.Quick() {
+				if c.Free(2, "tree-size/bounds") == 0 {
+					fullBounds = true
+				} else {
+					budget = 5
+				}
+			}
+			budget0 := budget
 			root := c13GenItem(c, &budget, 0, 3)
 			var heads []int
 			var nodes []*c13Node
@@ -242,6 +253,7 @@ func init() {
 				do   func() []byte
 			}
 			muts := []mut{{"none", func() []byte { return enc }}}
+			light := budget0 == 5 // 5-node trees: unmutated, key swaps/duplicates and trailing bytes only
 			reenc := func() []byte {
 				var h []int
 				var ns []*c13Node
@@ -251,15 +263,18 @@ func init() {
 				n := nodes[i]
 				idx := i
 				for _, w := range []int{1, 2, 4, 8} {
+					if light {
+						break
+					}
 					w := w
 					muts = append(muts, mut{fmt.Sprintf("head %d widened to %d follow bytes", idx, w), func() []byte {
 						n.width = w
 						return reenc()
 					}})
 				}
-				if n.major != refcbor.Uint {
+				if n.major != refcbor.Uint && !light {
 					bounds := c13Bounds
-					if c.Quick() {
+					if !fullBounds {
 						// (the full boundary list is swept by C13/wide-arguments)
 						bounds = []uint64{0, 1, 24, 256, 1 << 32, 1<<63 - 1, 1 << 63, 1<<64 - 9, 1<<64 - 1}
 					}
@@ -283,7 +298,7 @@ func init() {
 					}})
 				}
 			}
-			for off := 0; off < len(enc); off++ {
+			for off := 0; off < len(enc) && !light; off++ {
 				off := off
 				muts = append(muts, mut{fmt.Sprintf("truncated at %d", off), func() []byte { return enc[:off] }})
 			}
@@ -357,7 +372,7 @@ func init() {
 	register(&mc.Property{
 		ID:          "C13",
 		Level:       "model_checking",
-		Rule:        "choice-tree enumeration of inputs to cbor.Deterministic executed in watchdog-supervised workers: all byte strings of length <=2 (quick) / <=3 (thorough, 16.8 M); all strings of length <=4 (quick) / <=5 (thorough) over a 23-byte grammar alphabet; every head of the subset with an argument from a 32-value boundary list (incl. 2^62, 2^63+-1, 2^64-k for k<=16) in every head width, 0..3 content bytes, in 5 nesting contexts; every map of 1..3 pairs with keys (with repetition, every order) from an 11-key pool of mixed types/lengths and 4 value shapes in 3 contexts; every generated nested item with <=4 (quick) / <=5 (thorough) nodes, depth <=3, unmutated and with one mutation (head widened, length/count replaced by each boundary value, key pair swapped/duplicated, truncation at every offset, trailing byte). Oracle: reference recogniser refcbor.Deterministic (total, uint64 arithmetic); panic counts as refusal, non-termination (watchdog) is a violation. Non-trivial = reference made a verdict the implementation matched; distinct by input hash.",
+		Rule:        "choice-tree enumeration of inputs to cbor.Deterministic executed in watchdog-supervised workers: all byte strings of length <=2 (quick) / <=3 (thorough, 16.8 M); all strings of length <=4 (quick) / <=5 (thorough) over a 23-byte grammar alphabet; every head of the subset with an argument from a 32-value boundary list (incl. 2^62, 2^63+-1, 2^64-k for k<=16) in every head width, 0..3 content bytes, in 5 nesting contexts; every map of 1..3 pairs with keys (with repetition, every order) from an 11-key pool of mixed types/lengths and 4 value shapes in 3 contexts; every generated nested item with <=4 nodes (quick; thorough also <=5 nodes, those unmutated or with a key pair swapped / duplicated or a trailing byte), depth <=3, unmutated and with one mutation (head widened, length/count replaced by each of 9 boundary values (thorough: all 32), key pair swapped/duplicated, truncation at every offset, trailing byte). Oracle: reference recogniser refcbor.Deterministic (total, uint64 arithmetic); panic counts as refusal, non-termination (watchdog) is a violation. Non-trivial = reference made a verdict the implementation matched; distinct by input hash.",
 		Assumptions: []string{"refcbor.Deterministic implements RFC 8949 section 4.2.1 for major types 0,2,3,4,5 (text is not required to be valid UTF-8: well-formedness, not validity)", "a panic of cbor.Deterministic is its way of refusing truncated input (required by the repository's own tests)"},
 		Harnesses:   []*mc.Harness{all, reduced, wide, maps, trees, encOut},
 		Guard: func(s map[string]*mc.Stats) error {
